@@ -273,6 +273,11 @@ def _ar_self(args):
     return common.fresh_node(common.Step, g, "self")
 
 
+def _RES_SORT():
+    cur().decls.sort("Resources")
+    return "Resources"
+
+
 def _ar_finish(c, outcome, args, old):
     if outcome[0] != "return":
         return
@@ -283,6 +288,18 @@ def _ar_finish(c, outcome, args, old):
     marks = [e for e in t if e.kind == "mark_step_pending"]
     failed = tm.Eq(sstate(db0, n), tm.mk_int(StepState.FAILED.value))
     c.prove("pending_only_if_it_had_failed", tm.Implies(tm.mk_bool(len(marks) > 0), failed), kind="trace")
+    # C12: the resource requirements of the new declaration replace the stored ones on every recycle, whether or not
+    # the step still has a hash (a failed hash check sends it through the resource gate with these rows)
+    sets = [e for e in t if e.kind in ("call", "inline") and e.callee.endswith("Step.set_resources")]
+
+    def arg_of(e):
+        a = e.args
+        if isinstance(a, dict):
+            return a.get("resources", "?")
+        return a[1] if len(a) > 1 else "?"
+
+    c.prove("declared_resources_are_rewritten", tm.mk_bool(len(sets) == 1 and arg_of(sets[0]) is args["resources"]), kind="trace",
+            detail=f"{len(sets)} call(s) of Step.set_resources on this path")
     for e in t:
         if e.kind == "sql" and e.norm.upper().startswith("UPDATE STEP"):
             cols = set(x.split("=")[0].strip() for x in e.norm.split(" SET ", 1)[1].split(" WHERE ")[0].split(","))
@@ -299,11 +316,13 @@ class set_duration:
 class after_recycle:
     """A fully recycled step keeps its state and its stored hash; only a FAILED step is made pending."""
 
-    args = dict(self=_ar_self, need=ty.EnumOf(common.Need), shell=ty.Bool, resources=lambda a: None,
+    args = dict(self=_ar_self, need=ty.EnumOf(common.Need), shell=ty.Bool,
+                resources=lambda a: sym.SymOpaque(cur().decls.const("declared.resources", _RES_SORT())),
                 env_overrides=lambda a: None, duration=lambda a: None)
     entry = lambda self: wrap_bool(graphdb.exists(db_of(self), "step", I(self.i)))
     finish = _ar_finish
     modifies = []
+    partial_props = {"C12": ["declared_resources_are_rewritten"]}
 
 
 # ---------------------------------------------------------------- rescan_nglobs: a registration is persisted only if ITS match set changed
